@@ -370,7 +370,12 @@ HYPOTHESES = ['is_field F: field_theory of the dictionary operations with Leibni
               'eqb_correct F: feqb decides equality',
               'prim_root F k omega: omega^(2^(k-1)) = -1, i.e. omega is a primitive 2^k-th root of unity',
               'C07_ifft_fft_id: gen*gen_inv = 1, offset*offset_inv = 1, 2^k*size_inv = 1 (what the constructor stores; implies odd characteristic)',
-              'C07_get_root_of_unity_pow2: the configured TWO_ADIC_ROOT_OF_UNITY has exact order 2^TWO_ADICITY (configuration fact, C16)']
+              'C07_get_root_of_unity_pow2: the configured TWO_ADIC_ROOT_OF_UNITY has exact order 2^TWO_ADICITY (configuration fact, C16)',
+              'mixed-radix theorems: n = 2^s q^t with q odd >= 3, omega^n = 1 and omega^(n/2) = -1 when s >= 1 (what get_root_of_unity returns for a '
+              'configuration whose LARGE_SUBGROUP_ROOT_OF_UNITY has exact order 2^S q^qa: C07_get_root_large_pow_n/_pow_half, configuration fact C16)',
+              'C07_dft_inverse, C07_mixed_ifft_fft_id, Lagrange theorems: the generator has exact order n (gen^n = 1, gen^i <> 1 for 0 < i < n), '
+              'offset <> 0, n*1 <> 0 in the field, stored inverses are inverses, d_size_fe = n*1, d_offset_pow_size = offset^n (what the constructors store)',
+              'C07_get_root_large_*: L^(2^S q^qa) = 1, L^(2^(S-1) q^qa) = -1 for the configured large-subgroup root (configuration fact, C16)']
 
 # pinned theorems that instantiate this package's abstract-field theorems at the executed ZpOps dictionary
 EXTRA_PROP_FILES = ['Bridge']
